@@ -23,10 +23,10 @@ var (
 )
 
 type c01Case struct {
-	Cfg    int      `json:"cfg"`
-	Spec   RespSpec `json:"spec"`
-	Times  []int64  `json:"elapsed_s"`
-	SubMs  int      `json:"sub_ms"`
+	Cfg   int      `json:"cfg"`
+	Spec  RespSpec `json:"spec"`
+	Times []int64  `json:"elapsed_s"`
+	SubMs int      `json:"sub_ms"`
 }
 
 func c01Decode(cfg int) c01Case {
